@@ -28,6 +28,8 @@ def setup():
     for m in MODES:
         for rel in (False, True):
             vlib.build_nolibc(P, "mem_probe", m, rel)
+    argv, env, cwd = vlib.miri_cmd(H, "h_mem-miri", "h_mem", ["sample", 0, 0], [])
+    vlib.run_one(argv, env=env, cwd=cwd, timeout=1800)
 
 
 def _one_sample(text, idx):
@@ -125,6 +127,27 @@ def run(ck, replay=None):
     quick = ck.tier == "quick"
     dbg = vlib.cargo_build(H, "h_mem-debug") + "/h_mem"
     rel = vlib.cargo_build(H, "h_mem-release", release=True) + "/h_mem"
+    if replay:
+        d = json.load(open(replay)).get("detail", {})
+        c = d.get("case")
+        if not c:
+            vlib.log("this witness is a probe / Miri finding without a single-case record: re-run `bin/check C08`; detail:\n%s" % json.dumps(d, indent=1)[:3000])
+            return "replay: nothing to run"
+        if c.get("placement") != "red-zones":
+            for exe in (dbg, rel):
+                ck.consume_result(vlib.run_one([exe, "guard", str(ck.seed), "20000"]), "replay guard placements")
+            return "replay of the guard-page placements"
+        dist = c.get("dst_minus_src", 0) if c.get("buffers") == "one" else 0
+        dm = c["dst_mis"]
+        if dist:
+            dm = (dm - ((128 + abs(dist) + 7) & ~7)) % 16
+        aux = c.get("c", c.get("first_diff", 0))
+        var = {"equal": 0, "a<b": 1, "a>b": 2}.get(c.get("relation"), 0)
+        for exe in (dbg, rel):
+            r = vlib.run_one([exe, "one", "0", "0", str(FNS.index(c["fn"])), str(c["n"]), str(dm), str(c.get("src_mis", 0)), str(dist), str(aux), str(var)])
+            vlib.log(r["out"])
+            ck.consume_result(r, "replay")
+        return "replay of one case"
     probes = []
     for m in MODES:
         for release in (False, True):
